@@ -64,7 +64,9 @@ func cmdList(args []string) int {
 	byProp := map[string][]string{}
 	for _, b := range prog.Contracts.Order {
 		if b.Sub == "" {
-			byProp[b.Prop] = append(byProp[b.Prop], b.Key)
+			for _, pp := range strings.Split(b.Prop, ",") {
+				byProp[strings.TrimSpace(pp)] = append(byProp[strings.TrimSpace(pp)], b.Key)
+			}
 		}
 	}
 	var ps []string
@@ -107,9 +109,9 @@ func cmdCheck(args []string) int {
 		o.seed, _ = strconv.Atoi(s)
 	}
 	if o.timeout == 0 {
-		o.timeout = 10
+		o.timeout = 20
 		if o.tier == "thorough" {
-			o.timeout = 60
+			o.timeout = 90
 		}
 	}
 	if o.prop == "" {
@@ -139,7 +141,7 @@ func runCheck(o checkOpts) int {
 	var runs []unitRun
 	var funcs []string
 	for _, blk := range prog.Contracts.Order {
-		if blk.Prop != o.prop || blk.Sub != "" {
+		if !hasProp(blk.Prop, o.prop) || blk.Sub != "" {
 			continue
 		}
 		if o.only != "" && blk.Key != o.only {
@@ -276,6 +278,16 @@ func runCheck(o checkOpts) int {
 		return 1
 	}
 	return 0
+}
+
+// a block may serve several properties: "prop C04,C05"
+func hasProp(list, p string) bool {
+	for _, x := range strings.Split(list, ",") {
+		if strings.TrimSpace(x) == p {
+			return true
+		}
+	}
+	return false
 }
 
 func indent(s string) string {
